@@ -33,9 +33,9 @@ CaseChecks(r) ==
 StackChecks(r) ==
   LET at == r.attempts  n == Len(at) IN
   {<<"BodyComplete", \A k \in 1..n : at[k].dest = "registry" => (IF r.body = "none" THEN at[k].bodylen = 0 ELSE at[k].bodyok)>>,
-   <<"OneShotNeverResent", r.body = "oneshot" => Cardinality({k \in 1..n : at[k].dest = "registry"}) <= 1>>,
+   <<"OneShotNeverResent", r.body \in {"oneshot", "oneshotstream"} => Cardinality({k \in 1..n : at[k].dest = "registry"}) <= 1>>,
    <<"Bounded", \A s \in 1..r.sends : Cardinality({k \in 1..n : at[k].send = s}) <= r.maxretry + 1>>,
-   <<"StackOutcome", r.body # "oneshot" => r.status = r.want>>}
+   <<"StackOutcome", r.body \notin {"oneshot", "oneshotstream"} => r.status = r.want>>}
 
 PolicyChecks(r) ==
   {<<"PolicyNoPanic", ~r.panic>>,
